@@ -168,6 +168,9 @@ def run_more(chk, repo, fields):
                       'split into several statements) is ignored', line=search.lineno,
                       witness='$PRED with Y = IPRED + EPS(1) followed by Y = Y*2: the observation expression, the '
                               'predictions and the gradients are those of the first statement')
+    # the index may be handed on under another name (`dv_index = i; break`)
+    ivars = {ivar} | {a_.targets[0].id for a_ in ast.walk(search) if isinstance(a_, ast.Assign)
+                      and isinstance(a_.targets[0], ast.Name) and isinstance(a_.value, ast.Name) and a_.value.id == ivar}
     fe = [c for c in calls_in(f.node) if isinstance(c.func, ast.Attribute) and c.func.attr == 'full_expression']
     subs_loops = [L for L in loops if L is not search and any(
         isinstance(c, ast.Call) and isinstance(c.func, ast.Attribute) and c.func.attr == 'subs' for c in ast.walk(L))]
@@ -175,13 +178,13 @@ def run_more(chk, repo, fields):
     desc = ''
     for L in subs_loops:
         it = L.iter
-        if ivar in {x.id for x in ast.walk(it) if isinstance(x, ast.Name)} and descending(it):
+        if ivars & {x.id for x in ast.walk(it) if isinstance(x, ast.Name)} and descending(it):
             bounded = True
             desc = f'for {unparse(L.target)} in {unparse(it)}'
     for c in fe:
         recv = c.func.value
         if isinstance(recv, ast.Subscript) and isinstance(recv.slice, ast.Slice) and recv.slice.upper is not None \
-                and ivar in {x.id for x in ast.walk(recv.slice.upper) if isinstance(x, ast.Name)}:
+                and ivars & {x.id for x in ast.walk(recv.slice.upper) if isinstance(x, ast.Name)}:
             bounded = True
             desc = unparse(c)
         else:
